@@ -1009,4 +1009,235 @@ theorem runLoop_cl {g : Graph} (H : Hyp g) (w : Nat) (fuel : Nat) (s : State) (e
       have hpf := pc_setWd_pc s1 w .failed hw1
       refine ⟨hfr.trans h2.fr, h2.loc p2, Or.inr (by rw [hpf]; rfl), pcC_of_nonTest (by rw [hpf]; rfl)⟩
 
+/-! ## the resumption part of a step -/
+
+/-- what a whole step (or its tail) of worker `w` guarantees -/
+def Done (g : Graph) (w : Nat) (s s' : State) : Prop :=
+  Fr w s s' ∧ Loc g w s' ∧ (Walk g w s' ∨ pcFailed (s'.wd w).pc = true) ∧ PcC g w s'
+
+theorem Strong.done {g : Graph} {w : Nat} {s s' : State} (h : Strong g w s s') : Done g w s s' :=
+  ⟨h.1, h.2.1, Or.inl h.2.2.1, h.2.2.2⟩
+
+theorem Done.of_quiet {g : Graph} {w : Nat} {s s1 s2 : State} (a : Quiet w s s1) (h : Done g w s1 s2) : Done g w s s2 :=
+  ⟨a.fr.trans h.1, h.2.1, h.2.2.1, h.2.2.2⟩
+
+theorem same_reportOutcomeR (g : Graph) (s : State) (w n : Nat) (phase : Phase) (uid : String) (wait : Nat) (out : Outcome) :
+    Same w s (reportOutcomeR g s w n phase uid wait out).1 := by
+  unfold reportOutcomeR
+  dsimp only
+  split
+  · split
+    · split
+      · exact (quiet_job w s _).trans (quiet_store w _ _)
+      · exact quiet_job w s _
+    · exact Same.refl w s
+  · exact Same.refl w s
+
+theorem same_recordResultR (s : State) (w n : Nat) (phase : Phase) (name uid : String) (tag : Nat) (st0 : String) (dur : Nat) :
+    Same w s (recordResultR s w n phase name uid tag st0 dur).1 := by
+  unfold recordResultR
+  dsimp only
+  have hX : ∀ (c : Bool) (jr : List (String × String × String × Nat)),
+      Same w s (if c = true then { s with jobResults := jr } else s) := by
+    intro c jr
+    cases c
+    · exact Same.refl w s
+    · exact quiet_job w s jr
+  by_cases hp : (phase == Phase.pre) = true
+  · simp only [hp, if_true]
+    exact (hX _ _).trans (same_setWd w _ _ (fun _ => rfl) (fun _ => rfl))
+  · simp only [hp, Bool.false_eq_true, if_false]
+    exact (hX _ _).trans (quiet_setNd w _ n _)
+
+theorem continueAfter_cl {g : Graph} (H : Hyp g) (w n : Nat) (ph : Phase) (dir : Dir) (fuel : Nat) (hf : 0 < fuel)
+    (s : State) (ok : Bool) (evs : List Event) (hw : w < s.workers.length) (hcls : ClsIn g s) (hh : s.hidden = [])
+    (l : Loc g w s) (k : Walk g w s) (hlast : (s.wd w).path.getLast? = some n)
+    (hdown : dir = .down → PShape g (s.wd w).path true) :
+    Done g w s (resumeTest.continueAfter g w n ph dir fuel s ok evs).1 := by
+  unfold resumeTest.continueAfter
+  dsimp only
+  by_cases hc : (ph == Phase.pre && ok) = true
+  · simp only [hc, if_true]
+    have h3 := startTest_cl (g := g) w s n .main dir hw l k hlast hdown
+    rcases hst : startTest g s n w .main dir with ⟨s2, e2, f⟩
+    rw [hst] at h3
+    exact h3.done
+  · simp only [hc, Bool.false_eq_true, if_false]
+    have hsd : Same w s (if (ph == Phase.pre) = true then
+          s.setNd n (fun d => { d with results := d.results ++ List.drop d.results.length (s.wd w).preResults })
+        else s) := by
+      split
+      · exact quiet_setNd w s n _
+      · exact Same.refl w s
+    generalize (if (ph == Phase.pre) = true then
+          s.setNd n (fun d => { d with results := d.results ++ List.drop d.results.length (s.wd w).preResults })
+        else s) = sd at hsd ⊢
+    have hF : Same w s (finishTraverse sd n w) := hsd.trans (same_finishTraverse w sd n w)
+    have hwF : w < (finishTraverse sd n w).workers.length := by rw [hF.1.wl]; exact hw
+    have hclsF : ClsIn g (finishTraverse sd n w) := fun m hm => by rw [hF.1.rl]; exact hcls m hm
+    have hhF : (finishTraverse sd n w).hidden = [] := hF.1.hid hh
+    rw [vis_of_nil g _ hhF]
+    have h3 := afterTraverse_cl H w (finishTraverse sd n w) n ((s.wd w).path.getD ((s.wd w).path.length - 2) 0) dir
+      hwF hclsF (hF.1.loc l) (hF.1.walk k) (by rw [hF.1.path]; exact hlast) (by rw [hF.1.path]; exact hdown)
+    rcases hat : afterTraverse g (finishTraverse sd n w) w n ((s.wd w).path.getD ((s.wd w).path.length - 2) 0) dir
+      with ⟨s2, e2, f⟩
+    rw [hat] at h3
+    obtain ⟨p1, p2, p3, _⟩ := h3
+    have hfr : Fr w s s2 := hF.1.fr.trans p1
+    have hw2 : w < s2.workers.length := by rw [hfr.wl]; exact hw
+    have hloop : raises f = false → Done g w s (runLoop g w fuel s2 (evs ++ e2)).1 := by
+      intro hnr
+      obtain ⟨q1, q2, q3, q4⟩ := runLoop_cl H w fuel s2 (evs ++ e2) hw2 (fun m hm => by rw [hfr.rl]; exact hcls m hm)
+        (hfr.hid hh) p2 (p3 hnr) (Or.inr hf)
+      exact ⟨hfr.trans q1, q2, q3, q4⟩
+    cases f with
+    | raise what =>
+      dsimp only
+      have h2 : Quiet w s2 (s2.setWd w (fun d => { d with pc := .failed })) := quiet_setWd w s2 _ (fun _ => rfl)
+      have hpf := pc_setWd_pc s2 w .failed hw2
+      exact ⟨hfr.trans h2.fr, h2.loc p2, Or.inr (by rw [hpf]; rfl), pcC_of_nonTest (by rw [hpf]; rfl)⟩
+    | cont => exact hloop rfl
+    | suspend => exact hloop rfl
+    | exit => exact hloop rfl
+
+theorem resumeTest_cl {g : Graph} (H : Hyp g) (s : State) (w n : Nat) (ph : Phase) (dir : Dir) (uid : String)
+    (tag wait : Nat) (out : Outcome) (fuel : Nat) (hf : 0 < fuel) (hw : w < s.workers.length) (hcls : ClsIn g s)
+    (hh : s.hidden = []) (l : Loc g w s) (k : Walk g w s) (hlast : (s.wd w).path.getLast? = some n)
+    (hdown : dir = .down → PShape g (s.wd w).path true) :
+    Done g w s (resumeTest g s w n ph dir uid tag wait out fuel).1 := by
+  rw [resumeTest_eqR]
+  have ha := same_reportOutcomeR g s w n ph uid wait out
+  have hwa : w < (reportOutcomeR g s w n ph uid wait out).1.workers.length := by rw [ha.1.wl]; exact hw
+  have hwait : Done g w s
+      ((reportOutcomeR g s w n ph uid wait out).1.setWd w (fun d => { d with pc := .test n ph dir uid tag (wait + 1) })) :=
+    (post_test (fun d => { d with pc := .test n ph dir uid tag (wait + 1) }) n ph dir uid tag (wait + 1) hwa ha.1 l k hlast hdown
+      (fun _ => rfl) (fun _ => rfl)).done
+  have hcont : ∀ sb ok, Same w (reportOutcomeR g s w n ph uid wait out).1 sb →
+      Done g w s (resumeTest.continueAfter g w n ph dir fuel sb ok (reportOutcomeR g s w n ph uid wait out).2).1 := by
+    intro sb ok hb
+    have hab := ha.trans hb
+    exact Done.of_quiet hab.1 (continueAfter_cl H w n ph dir fuel hf sb ok _ (by rw [hab.1.wl]; exact hw)
+      (fun m hm => by rw [hab.1.rl]; exact hcls m hm) (hab.1.hid hh) (hab.1.loc l) (hab.1.walk k)
+      (by rw [hab.1.path]; exact hlast) (by rw [hab.1.path]; exact hdown))
+  split
+  · next st0 dur _ => exact hcont _ _ (same_recordResultR _ w n ph _ uid tag st0 dur)
+  · split
+    · exact hwait
+    · split
+      · exact hwait
+      · exact hcont _ _ (Same.refl w _)
+
+/-- one scheduler step of a real worker with fuel on a pre-parsed graph -/
+theorem resume_cl {g : Graph} (H : Hyp g) (s : State) (w : Nat) (out : Outcome) (fuel : Nat) (hf : 0 < fuel)
+    (hw : w < s.workers.length) (hcls : ClsIn g s) (hh : s.hidden = []) (l : Loc g w s)
+    (k : Walk g w s ∨ pcFailed (s.wd w).pc = true) (c : PcC g w s) :
+    Done g w s (resume g s w out fuel).1 := by
+  have hloop : pcFailed (s.wd w).pc = false → Done g w s (runLoop g w fuel s []).1 := by
+    intro hnf
+    have k' : Walk g w s := k.resolve_right (by rw [hnf]; simp)
+    exact runLoop_cl H w fuel s [] hw hcls hh l k' (Or.inr hf)
+  unfold resume
+  split
+  · next hpc => exact hloop (by rw [hpc]; rfl)
+  · next hpc => exact hloop (by rw [hpc]; rfl)
+  · next n ph dir uid tag wait hpc =>
+    have k' : Walk g w s := k.resolve_right (by rw [hpc]; simp [pcFailed])
+    obtain ⟨c1, c2⟩ := c n ph dir uid tag wait hpc
+    exact resumeTest_cl H s w n ph dir uid tag wait out fuel hf hw hcls hh l k' c1 c2
+  · exact ⟨Fr.refl w s, l, k, c⟩
+  · exact ⟨Fr.refl w s, l, k, c⟩
+
+/-! ## the invariant over the reachable states -/
+
+structure CInv (g : Graph) (s : State) : Prop where
+  hid : s.hidden = []
+  wl : s.workers.length = g.workers.length
+  cls : ClsIn g s
+  loc : ∀ v, Loc g v s
+  walk : ∀ v, Walk g v s ∨ pcFailed (s.wd v).pc = true
+  pc : ∀ v, PcC g v s
+
+theorem CInv.step {g : Graph} (H : Hyp g) {s : State} (ci : CInv g s) (w : Nat) (out : Outcome) (fuel : Nat)
+    (hw : w < g.workers.length) (hf : 0 < fuel) : CInv g (resume g s w out fuel).1 := by
+  obtain ⟨d1, d2, d3, d4⟩ := resume_cl H s w out fuel hf (by rw [ci.wl]; exact hw) ci.cls ci.hid (ci.loc w) (ci.walk w) (ci.pc w)
+  refine ⟨d1.hid ci.hid, d1.wl.trans ci.wl, fun n hn => by rw [d1.rl]; exact ci.cls n hn, fun v => ?_, fun v => ?_, fun v => ?_⟩
+  · by_cases hv : v = w
+    · subst hv; exact d2
+    · exact d1.loc_other hv (ci.loc v)
+  · by_cases hv : v = w
+    · subst hv; exact d3
+    · rcases ci.walk v with h | h
+      · exact Or.inl (d1.walk_other hv h)
+      · right; rw [d1.others v hv]; exact h
+  · by_cases hv : v = w
+    · subst hv; exact d4
+    · exact d1.pcC_other hv (ci.pc v)
+
+theorem CInv.init (g : Graph) (H : Hyp g) (ncls : Nat) (hK : ClsOk g ncls) (store : List (String × List (String × String))) :
+    CInv g (initState g ncls store []) := by
+  have hcr : ∀ c, (initState g ncls store []).cr c = {} := by
+    intro c
+    unfold initState State.cr
+    simp only [List.getD_eq_getElem?_getD, List.getElem?_map]
+    cases (List.range ncls)[c]? <;> rfl
+  have hwd : ∀ v, ((initState g ncls store []).wd v) = { path := [g.root] } ∨ ((initState g ncls store []).wd v) = {} := by
+    intro v
+    unfold initState State.wd
+    simp only [List.getD_eq_getElem?_getD, List.getElem?_map]
+    cases g.workers[v]?
+    · right; rfl
+    · left; rfl
+  have hnd : ∀ v c, ¬ Dr (initState g ncls store []) v c := by
+    rintro v c ⟨cp, h⟩
+    rw [hcr] at h; simp [regWorkers] at h
+  refine ⟨rfl, by simp [initState], fun n hn => by simp only [initState, List.length_map, List.length_range]; exact hK n hn,
+    fun v => ⟨?_, fun c h => absurd h (hnd v c)⟩, fun v => Or.inl ⟨?_, ?_⟩, fun v => ?_⟩
+  · intro x hx
+    rcases hwd v with h | h
+    · rw [h] at hx
+      have : x = g.root := by simpa using hx
+      rw [this]
+      exact ⟨H.wf.root_lt, by unfold relevant; rw [H.top.1]; rfl⟩
+    · rw [h] at hx; simp at hx
+  · rcases hwd v with h | h
+    · rw [h]; exact Or.inr ⟨true, .one g.root⟩
+    · rw [h]; exact Or.inl rfl
+  · intro x _; exact hnd v _
+  · apply pcC_of_nonTest
+    rcases hwd v with h | h <;> rw [h] <;> rfl
+
+/-- the states the scheduler can produce on a pre-parsed graph: any finite sequence of `resume` steps of real workers
+with any outcomes and any positive fuel (the fuel only bounds the number of loop iterations of one step in the driver; with
+fuel 0 a step may stop before the pc is reset) -/
+inductive ReachC (g : Graph) (ncls : Nat) (store : List (String × List (String × String))) : State → Prop
+  | init : ReachC g ncls store (initState g ncls store [])
+  | step (s : State) (w : Nat) (out : Outcome) (fuel : Nat) :
+      ReachC g ncls store s → w < g.workers.length → 0 < fuel → ReachC g ncls store (resume g s w out fuel).1
+
+theorem ReachC.reachH {g : Graph} {ncls : Nat} {store : List (String × List (String × String))} {s : State}
+    (h : ReachC g ncls store s) : ReachH g ncls store [] s := by
+  induction h with
+  | init => exact .init
+  | step s w out fuel _ _ _ ih => exact .step s w out fuel ih
+
+theorem ReachC.cinv {g : Graph} (H : Hyp g) {ncls : Nat} (hK : ClsOk g ncls) {store : List (String × List (String × String))}
+    {s : State} (h : ReachC g ncls store s) : CInv g s := by
+  induction h with
+  | init => exact CInv.init g H ncls hK store
+  | step s w out fuel _ hw hf ih => exact ih.step H w out fuel hw hf
+
+theorem reachC_runSched (g : Graph) (ncls : Nat) (store : List (String × List (String × String))) (fuel : Nat) (hf : 0 < fuel)
+    (l : List (Nat × Outcome)) (hl : ∀ p ∈ l, p.1 < g.workers.length) (s : State) (h : ReachC g ncls store s) :
+    ReachC g ncls store (runSched g fuel s l) := by
+  induction l generalizing s with
+  | nil => exact h
+  | cons p l ih =>
+    exact ih (fun q hq => hl q (List.mem_cons_of_mem _ hq)) _ (ReachC.step s p.1 p.2 fuel h (hl p List.mem_cons_self) hf)
+
+/-- "dropped means done": a worker awaiting a test awaits it on a node it has not dropped as a cleanup child -/
+theorem CInv.not_dropped_in_flight {g : Graph} {s : State} (ci : CInv g s) (v n : Nat) (ph : Phase) (dir : Dir) (uid : String)
+    (tag wait : Nat) (hpc : (s.wd v).pc = .test n ph dir uid tag wait) : ¬ Dr s v (g.node n).cls := by
+  have hk : Walk g v s := (ci.walk v).resolve_right (by rw [hpc]; simp [pcFailed])
+  exact hk.a n (List.mem_of_getLast? (ci.pc v n ph dir uid tag wait hpc).1)
+
 end I2N.Trav.Clean
